@@ -636,6 +636,18 @@ func absorb(path, variantName string, res *shardResult) bool {
 		_ = os.Truncate(path, 0)
 	}()
 	ended := false
+	var lastProgress map[string]any
+	defer func() {
+		// a worker that died credits what it had counted at its last progress record
+		if !ended && lastProgress != nil {
+			res.evals += int64(num(lastProgress["evals"]))
+			if m, ok := lastProgress["counts"].(map[string]any); ok {
+				for k, c := range m {
+					res.counts[k] += int64(num(c))
+				}
+			}
+		}
+	}()
 	rd := bufio.NewReaderSize(f, 1<<20)
 	for {
 		line, err := rd.ReadBytes('\n')
@@ -652,6 +664,8 @@ func absorb(path, variantName string, res *shardResult) bool {
 					res.metas[str(ev["k"])] = ev["v"]
 				case "floor":
 					res.floors[str(ev["k"])] = int64(num(ev["min"]))
+				case "progress":
+					lastProgress = ev
 				case "end":
 					ended = true
 					res.evals += int64(num(ev["evals"]))
